@@ -60,6 +60,7 @@ type Exec struct {
 	panicV  any
 
 	// synchronisation (library-side sync / atomic / go statements, redirected by the instrumentation)
+	stale       int    // Block calls since the last synchronisation event
 	waiting     uint32 // threads that polled and cannot proceed until some thread changes synchronisation state
 	nHarness    int
 	deadlock    bool // teardown in progress
@@ -187,7 +188,7 @@ func (e *Exec) syncPre(kind int) {
 }
 
 // syncPost: synchronisation state changed - every waiting thread polls again when it is next chosen.
-func (e *Exec) syncPost() { e.waiting = 0 }
+func (e *Exec) syncPost() { e.waiting, e.stale = 0, 0 }
 
 // block: the running thread polled and cannot proceed.
 func (e *Exec) block() {
@@ -197,13 +198,34 @@ func (e *Exec) block() {
 
 	me := e.cur
 	e.waiting |= 1 << me
+	e.stale++
 
-	if e.aliveMask()&^e.waiting == 0 {
-		e.declareDeadlock()
-		panic(deadlockSentinel{})
+	if alive := e.aliveMask(); alive&^e.waiting == 0 {
+		// Every live thread waits. Before this is called a deadlock every one of them polls once more: a state
+		// change the shims did not see (an operation of the standard library, plain memory) must not be mistaken
+		// for one. Only when all of them have blocked again with no synchronisation event in between is it final.
+		if e.stale > 2*popcount(alive) {
+			e.declareDeadlock()
+			panic(deadlockSentinel{})
+		}
+
+		e.waiting = 1 << me
+
+		if alive == 1<<me {
+			return // alone: poll again
+		}
 	}
 
 	e.switchTo(me, e.point(kindBlock, -3))
+}
+
+func popcount(m uint32) int {
+	n := 0
+	for ; m != 0; m &= m - 1 {
+		n++
+	}
+
+	return n
 }
 
 func (e *Exec) declareDeadlock() {
@@ -270,7 +292,8 @@ func (e *Exec) finish(me int) {
 	}
 
 	if !e.deadlock && alive&^e.waiting == 0 {
-		e.declareDeadlock() // everything that is left waits for something that cannot happen any more
+		// everything that is left waits; the end of a thread may be what they wait for (see block): one more poll each
+		e.waiting, e.stale = 0, 0
 	}
 
 	next := lowest(alive)
@@ -298,6 +321,7 @@ func Run(bodies []func(), plan []Decision, isPoint []bool) *Exec {
 	}
 
 	e.nHarness = len(e.threads)
+	vsync.Reset()
 
 	for i, t := range e.threads {
 		e.start(i, t)
